@@ -43,7 +43,8 @@ RULE = ("each run assembles a server (bare protocol + scripted handler/middlewar
 PROBES = ["timeout_path", "peer_fin_before_response", "peer_rst_mid_response", "slow_reader",
           "handler_raised", "handler_illformed", "middleware_denied", "oversize_line",
           "start_server_root", "start_server_locations", "listing_served", "titan_upload_path",
-          "delayed_handler_gt_timeout", "default_404_reached"]
+          "delayed_handler_gt_timeout", "default_404_reached",
+          "late_completion_after_timeout"]
 COMPONENTS = {
     "real": ["nauyaca.server.protocol / tls_protocol / server.start_server / router / handler / "
              "content.gemtext / middleware / proxy", "asyncio selector transports + sslproto",
@@ -364,6 +365,18 @@ def run_one(ch):
             uplan["delay"] = 0.0
         upload_enabled = ch.chance("upload_enabled", 0.8)
         mwkind = ch.choose("mw", 5, [6, 1, 2, 1, 1])   # none, allow, deny, raise, slow+allow
+        # "late completion" scenario: an incomplete Titan upload runs into the request
+        # timeout while a slow chain is still undecided; the chain then finishes
+        # (raise / deny / allow) while the timeout response is still being drained
+        # by a reader behind a tiny socket buffer
+        late = ch.chance("latecompletion", 0.05)
+        late_d = late_out = None
+        if late:
+            upload_enabled = True
+            mwkind = 5
+            late_d = ch.pick("late_d", [30.2, 30.5, 30.9, 31.4])
+            late_out = ch.pick("late_out", ["raise", "deny", "allow"])
+            state["late"] = True
         deny_resp = ch.pick("denyresp", ["53 Denied\r\n", "44 Slow down. Retry after 30 seconds\r\n",
                                          "60 Client certificate required\r\n"])
         spy = sw.SpyHandler(sim, hplan)
@@ -378,6 +391,12 @@ def run_one(ch):
                     mwlog.append((net.now, url))
                     if mwkind == 4:
                         await asyncio.sleep(0.5)
+                    if mwkind == 5:
+                        await asyncio.sleep(late_d)
+                        if late_out == "raise":
+                            raise RuntimeError("late failure")
+                        if late_out == "deny":
+                            return False, deny_resp
                     if mwkind == 2:
                         return False, deny_resp
                     if mwkind == 3:
@@ -402,6 +421,14 @@ def run_one(ch):
         stream, rinfo = gen_request(ch, i, upload_enabled, paths)
         script, pinfo = gen_peer(ch, stream, rinfo)
         slow = ch.chance("slowreader", 0.25)
+        if state.get("late") and i == 0:
+            size = 50 + ch.choose("late_size", 500)
+            stream = f"titan://{HOST}/up/t0.txt;size={size};mime=text/plain".encode() + b"\r\n" + \
+                b"x" * (size - 1 - ch.choose("late_short", 20))
+            rinfo = {"kind": 6, "titan": True, "tsize": size, "stream": stream}
+            script = [("send", stream)]
+            pinfo = {"fault": 0, "sent": stream, "k": None}
+            slow = True
         segmode = ch.choose("segmode", 4, [4, 3, 1, 2])
         start = ch.pick("cstart", [0.0, 0.0, 0.01, 1.0]) if i else 0.0
         conns.append({"i": i, "stream": stream, "rinfo": rinfo, "script": script, "pinfo": pinfo,
@@ -447,8 +474,15 @@ def run_one(ch):
             cap_s2c = 65536
             kw = {}
             if c["slow"]:
-                cap_s2c = ch.pick("s2ccap", [256, 1024, 4096])
-                kw = dict(read_rate=ch.pick("rrate", [512, 4096]), read_interval=0.05)
+                cap_s2c = ch.pick("s2ccap", [256, 1024, 4096, 16, 64])
+                if state.get("late") and c["i"] == 0:
+                    cap_s2c = 16
+                # tiny buffers get a short read interval so that even the largest body
+                # drains well within asyncio's 30 s TLS shutdown timer (see C06's finding)
+                kw = dict(read_rate=ch.pick("rrate", [512, 4096]),
+                          read_interval=0.05 if cap_s2c > 64 else 0.001)
+                if state.get("late") and c["i"] == 0:
+                    kw = dict(read_rate=16, read_interval=0.7)
             ep = raw_connect(net, HOST, 1965, src=("10.0.0.%d" % (c["i"] + 2), 50000 + c["i"]),
                              c2s=pol, s2c=WholePolicy(0.001), cap_s2c=cap_s2c, tag=f"k{c['i']}")
             c["peer"] = RawPeer(net, ep, c["script"], tls_ctx=sw.peer_tls_ctx(mode),
@@ -566,6 +600,8 @@ def run_one(ch):
         if rx.startswith(b"51 ") and assembly == 2 and not state.get("catchall"):
             res.stats["default_404_reached"] += 1
         res.stats["connections"] += 1
+    if state.get("late"):
+        res.stats["late_completion_after_timeout"] += 1
     if assembly == 0:
         if hplan["kind"] == "raise" and spy.log:
             res.stats["handler_raised"] += 1
